@@ -149,7 +149,7 @@ def check(ctx, case):
 
 
 def part_names(ctx):
-    n = 200 if ctx.tier == "quick" else 2000
+    n = 200 if ctx.tier == "quick" else 4000
     hyp_run(ctx, CASE, lambda c: check(ctx, c), n, name="names")
 
 
